@@ -178,7 +178,13 @@ func (rt *runtime) cmplEvaluateNodeBracketExpression(node *nodeBracketExpression
 	// TODO Pass in base value as-is, and defer toObject till later?
 	obj, err := rt.objectCoerce(targetValue)
 	if err != nil {
-		panic(rt.panicTypeError("Cannot access member %q of %s", memberValue.string(), err, at(node.idx)))
+		// 11.2.1: CheckObjectCoercible(base) comes before ToString(property
+		// name), so the name of an object is not computed for the message.
+		name := "[object]"
+		if !memberValue.IsObject() {
+			name = memberValue.string()
+		}
+		panic(rt.panicTypeError("Cannot access member %q of %s", name, err, at(node.idx)))
 	}
 	return toValue(newPropertyReference(rt, obj, memberValue.string(), false, at(node.idx)))
 }
